@@ -218,7 +218,9 @@ CLAIMED["C03"] = dict(
          "callback and the OrSignal its operands, so no collector - reference counting or cycle detection - can free the operands "
          "of a composite the program can reach. The constants "
          "(None/True/False/DONE/NEVER) and the release of waiters (C01 on the composite, an ordinary Signal) are checked on the "
-         "real operators by monitors and by trace acceptance.",
+         "real operators by monitors and by trace acceptance. L2 (C03_runs_terminate, Props/CompTerm.lean): building expressions and "
+         "cascades of go() terminate - an explicit rank over pending actions and the callbacks carried by untriggered signals - so "
+         "the quiescent points of the equivalence are reached after finitely many steps of any scheduler.",
     design="§5 C03", technique="Lean 4 inductive invariants (liveness of operands, hook coverage, propagation) over a heap with reference counting + trace acceptance of the real operators under CPython refcounting + monitors",
     note="Trusted: Lean kernel + standard axioms; model Composite.lean tied to signals.py by trace acceptance; then/go/remove_then "
          "atomic (C01/C02 on M1); CPython reference counting and weakref callback order are assumptions; the harness disables the "
@@ -233,7 +235,8 @@ CLAIMED["C04"] = dict(
          "countdown step has not run, each position counts exactly once (a & a counts twice); the composite is true only if all "
          "operands are; EQUIVALENCE (C04_and_iff, C04_and_iff_operands): at every quiescent point a live composite not triggered "
          "directly is true exactly when both operands are; strong reachability as for C03 (C04_operands_strongly_reachable). The countdown step is one model step; the real decrement is explored "
-         "at the granularity of every access to `remaining` (fine-mode runs). Constants are checked by monitors.",
+         "at the granularity of every access to `remaining` (fine-mode runs). Constants are checked by monitors. L2 (C04_and_settles): "
+         "after at most rank-many steps, where nobody can move and nobody is parked, the equivalence holds.",
     design="§5 C04, §7", technique="Lean 4 inductive invariants (token counting of countdown steps over per-thread pending actions) over a heap with reference counting + trace acceptance + fine-mode countdown runs + monitors",
     note="Same trusted base as C03.")
 
@@ -246,7 +249,8 @@ CLAIMED["C15"] = dict(
          "list belongs to a composite that is alive, untriggered and built on that signal, with its own cleanup registered; each "
          "hook occurs at most once per OrSignal and operand position (so the hooks on a signal are bounded by the live untriggered "
          "composites built on it); a triggered or dead signal holds no callbacks; also mid-operation every hook is covered by a "
-         "cleanup that is still to be registered, registered, queued or removing it, and a queued removal is effective.",
+         "cleanup that is still to be registered, registered, queued or removing it, and a queued removal is effective; L2 "
+         "(C15_no_leak_once_settled): the cleanup cascade finishes within the rank bound and leaves no hook behind.",
     design="§5 C15", technique="Lean 4 inductive invariant (token counting over per-thread pending actions, ordering of the three registrations of OrSignal.__init__) + trace acceptance with state observation of the real operators under CPython refcounting + monitor",
     note="Trusted: Lean kernel + standard axioms; model Composite.lean tied to signals.py by trace acceptance (every then/go/"
          "remove_then/callback/object death, job-list length of every live signal after each operation); then/go/remove_then "
